@@ -113,6 +113,10 @@ def split_url_table(ctx: Ctx):
     scheme_detection(ctx, rule, fi, r, by_delim)
     one("#", "first", "fragment")
     one("?", "first", "query")
+    # the bracketed host that is validated is the text between the FIRST '[' and the first ']' after it
+    for br in "[]":
+        if br in by_delim:
+            one(br, "first", "bracketed host")
     # scheme: i > 0, first char and every following char in scheme_chars, lower-cased
     ctx.instance(rule)
     rets = [(s, v) for s, v, _n in r.returns if v[0] == "tuple" and len(v[1]) == 5]
